@@ -172,7 +172,7 @@ pub fn run(ctx: &Ctx, stats: &mut Stats) {
     for k in 1u8..=kmax {
         run_exhaustive(ctx, stats, "exh-slide", all_seqs(k, &[0, 1, 2, 3, 4], k as usize + 3), &check);
     }
-    let n = ctx.tier.pick(200_000, 5_000_000);
+    let n = ctx.tier.pick(3_000_000, 40_000_000);
     run_prop(ctx, stats, "random", n, strat(), &check);
 }
 
